@@ -17,5 +17,4 @@ open Wallet
 #print axioms C19_progress_iff
 #print axioms C19_progress_block_at_height
 #print axioms C19_progress_errors
-#print axioms C19_progress_sent_partial
-#print axioms C19_progress_sent_counterexample
+#print axioms C19_progress_sent
